@@ -1068,7 +1068,7 @@ func printTo(b *strings.Builder, v Val) {
 	case Str:
 		b.WriteString(strconv.Quote(string(t)))
 	case Sym:
-		b.WriteString(strings.ToLower(string(t)))
+		b.WriteString(string(t))
 	case []Val:
 		if len(t) == 2 && symIs(t[0], "quote") {
 			b.WriteByte('\'')
